@@ -32,6 +32,7 @@ type Case struct {
 	Submitters [][]taskSpec `json:"submitters"`
 	Stop       int          `json:"stop"`    // -1: no Stop; k: Stop is invoked after k submissions have returned
 	Barrier    bool         `json:"barrier"` // check capacity recovery after the burst
+	Burst      int          `json:"burst,omitempty"` // async: functions queued behind a held-up one before the producers start
 }
 
 func gen(r *simrt.Rand, tier string, idx int) interface{} {
@@ -71,6 +72,9 @@ func gen(r *simrt.Rand, tier string, idx int) interface{} {
 	}
 	c.Stop = -1
 	c.Barrier = true
+	if c.Kind == "async" && r.Bool(0.15) {
+		c.Burst = r.Pick(100, 1023, 1024, 1025, 1100, 3000)
+	}
 	if c.Kind != "async" && r.Bool(0.3) {
 		total := 0
 		for _, s := range c.Submitters {
@@ -120,6 +124,14 @@ func shrinkCase(ci interface{}) []interface{} {
 	if c.Max > 2 {
 		x := cp()
 		x.Max--
+		out = append(out, x)
+	}
+	if c.Burst > 0 {
+		x := cp()
+		x.Burst = 0
+		out = append(out, x)
+		x = cp()
+		x.Burst = c.Burst / 2
 		out = append(out, x)
 	}
 	if c.Queue > 0 {
@@ -385,6 +397,28 @@ func runAsync(c *Case, o *common.Outcome) {
 	var recs []*arec
 	var order []int
 	inside := 0
+	if c.Burst > 0 {
+		// a long backlog behind one slow function (the queue grows past its shrink threshold),
+		// drained completely before anything else is submitted
+		release, ran, next := false, 0, 0
+		tm.Async(func() { simrt.WaitUntil("burst-hold", func() bool { return release }) })
+		for i := 0; i < c.Burst; i++ {
+			i := i
+			tm.Async(func() {
+				if i != next {
+					o.Fail("async-fifo", "burst", "function %d of a backlog of %d ran at position %d", i, c.Burst, next)
+				}
+				next++
+				ran++
+			})
+		}
+		release = true
+		simrt.Quiesce(time.Hour)
+		if ran != c.Burst {
+			o.Fail("async-exactly-once", "burst", "%d of %d queued Async functions ran", ran, c.Burst)
+			return
+		}
+	}
 	for si, specs := range c.Submitters {
 		specs := specs
 		si := si
